@@ -226,6 +226,14 @@ def main(run):
                                                                    {'k': 'list', 'prefix': ''}, {'k': 'list', 'prefix': 'dir/'}, {'k': 'list', 'prefix': 'pl'}]
     for kind in ('local:abs', 's3:2', 'b2:2'):
         traces.append(one_history(run, kind, 424242, 0, 0, quick, ops_override=tmpops, names_override=tmpnames))
+    # prefixed listings that span several pages while other names sort before and after the prefix range
+    pgnames = ['aaa'] + ['data/%02d/x' % i for i in range(8)] + ['data0'] + ['snapshots/%d' % i for i in range(4)] + ['zzz/last']
+    pgops = [{'k': 'upload', 'n': n, 'c': 1 + i % 3} for i, n in enumerate(pgnames)]
+    for pf in ('data/', 'data/0', 'da', 'data', 'snapshots/', 's', '', 'data/07/x', 'zzz', 'nomatch'):
+        pgops.append({'k': 'list', 'prefix': pf})
+    pgops += [{'k': 'delete', 'n': 'data/03/x'}, {'k': 'list', 'prefix': 'data/'}, {'k': 'delete', 'n': 'data/03/x'}, {'k': 'list', 'prefix': 'data/0'}]
+    for kind in ('local:abs', 'local:rel', 's3:2', 's3:3', 's3:1000', 'b2:2', 'b2:3', 'b2:1000'):
+        traces.append(one_history(run, kind, 515151, 0, 0, quick, ops_override=pgops, names_override=pgnames))
     # L2: TLC behaviours on every adapter kind
     behs, l2names = l2_behaviours(run, quick)
     remap = {'a b': 'a b!', 'a b/x%y': 'a b/x%y', 'x%y/a b': 'x%y/a bc', 'x%y/a b/漢': 'x%y/a b/漢'}
